@@ -31,6 +31,13 @@ import (
 // result streams of every query are read to closure by reader goroutines.
 // A send on a closed stream or a second close panics: the process exit is part
 // of the oracle (crash_oracle).
+//
+// Replies injected after a query's deadline (QueryResponse.Deadline(), itself
+// checked against call time + timeout) must never show up on its streams,
+// whether or not the close timer has fired yet.  In some cases the metrics
+// sink is slow for the reply counters during the bursts across the deadline:
+// a reply that passed the "finished?" test just before the deadline then
+// reaches the stream after it was closed.
 
 type c07Query struct {
 	Ack       bool `json:"ack"`
@@ -40,7 +47,7 @@ type c07Query struct {
 type c07Reply struct {
 	Target int  `json:"target"` // query index (mod number of queries)
 	Ack    bool `json:"ack"`    // ack or response
-	From   int  `json:"from"`   // responder 0..3
+	From   int  `json:"from"`   // responder 0..3; 4 = the node's own name, 5 = the empty name
 	IDMode int  `json:"idmode"` // 0 this query's (LTime,id); 1 wrong id; 2 wrong LTime; 3 this LTime with another query's id; 4 another query's LTime with this id
 	Wrong  int  `json:"wrong,omitempty"` // which wrong value (idmode 1, 2): boundary values included, see wrongID / wrongLTime
 	Relay  bool `json:"relay"`  // wrapped in a relay envelope addressed to the node itself
@@ -52,6 +59,10 @@ type c07Case struct {
 	Queries    []c07Query `json:"queries"`
 	Concurrent bool       `json:"concurrent"`
 	Replies    []c07Reply `json:"replies"`
+	// SlowSinkUs > 0: during the bursts across a deadline the metrics sink takes
+	// this long for the counters serf bumps between its "query finished?" test
+	// and the hand-over to the stream
+	SlowSinkUs int `json:"slow_sink_us,omitempty"`
 }
 
 func genC07(t *rapid.T) c07Case {
@@ -66,13 +77,18 @@ func genC07(t *rapid.T) c07Case {
 		c.Replies = append(c.Replies, c07Reply{
 			Target: rapid.IntRange(0, nq-1).Draw(t, "target"),
 			Ack:    rapid.Bool().Draw(t, "isack"),
-			From:   rapid.IntRange(0, 3).Draw(t, "from"),
+			From:   rapid.SampledFrom([]int{0, 1, 2, 3, 0, 1, 2, 3, 4, 5}).Draw(t, "from"),
 			IDMode: rapid.SampledFrom([]int{0, 0, 0, 0, 1, 1, 2, 3, 4}).Draw(t, "idmode"),
 			Wrong:  rapid.IntRange(0, 7).Draw(t, "wrong"),
 			Relay:  rapid.IntRange(0, 3).Draw(t, "relay") == 0,
 			Copies: rapid.SampledFrom([]int{1, 1, 2, 2, 3}).Draw(t, "copies"),
 			Phase:  rapid.SampledFrom([]int{0, 0, 0, 0, 1, 2, 2}).Draw(t, "phase"),
 		})
+	}
+	if rapid.IntRange(0, 2).Draw(t, "slow-sink?") == 0 {
+		c.SlowSinkUs = rapid.SampledFrom([]int{100, 300}).Draw(t, "slow-sink")
+		// such a case gets a burst for sure
+		c.Replies[rapid.IntRange(0, nr-1).Draw(t, "slow-sink-burst")].Phase = 1
 	}
 	return c
 }
@@ -128,12 +144,14 @@ func bodyC07(c c07Case, x *vkit.Ctx) {
 	resps := make([]*serf.QueryResponse, nq)
 	errs := make([]error, nq)
 	t0 := make([]time.Time, nq)
+	tEnd := make([]time.Time, nq)
 	timeouts := make([]time.Duration, nq)
 	issue := func(i int) {
 		q := c.Queries[i]
 		timeouts[i] = time.Duration(min(max(q.TimeoutMs, 1), 500)) * time.Millisecond
 		t0[i] = time.Now()
 		resps[i], errs[i] = n.Serf.Query(fmt.Sprintf("c07-q%d", i), []byte{byte(i)}, &serf.QueryParam{RequestAck: q.Ack, Timeout: timeouts[i]})
+		tEnd[i] = time.Now()
 	}
 	if c.Concurrent {
 		var wg sync.WaitGroup
@@ -161,6 +179,15 @@ func bodyC07(c c07Case, x *vkit.Ctx) {
 			return
 		}
 		ids[i].lt, ids[i].id = resps[i].VerifID()
+	}
+	// the query's deadline is the time of the call plus the timeout (monotonic clock readings on both sides)
+	deadlines := make([]time.Time, nq)
+	for i := 0; i < nq; i++ {
+		deadlines[i] = resps[i].Deadline()
+		if deadlines[i].Before(t0[i].Add(timeouts[i])) || deadlines[i].After(tEnd[i].Add(timeouts[i])) {
+			x.Violationf("deadline-not-call-time-plus-timeout", "query %d: Deadline() is %v after the call began and %v after it returned, timeout %v", i, deadlines[i].Sub(t0[i]), deadlines[i].Sub(tEnd[i]), timeouts[i])
+			return
+		}
 	}
 	for i := 0; i < nq; i++ {
 		for j := i + 1; j < nq; j++ {
@@ -215,9 +242,20 @@ func bodyC07(c c07Case, x *vkit.Ctx) {
 		ack     bool
 		from    string
 		payload string
+		at      time.Time // taken before the (first) injection
+	}
+	fromName := func(f int) string {
+		switch f % 6 {
+		case 4:
+			return self
+		case 5:
+			return ""
+		}
+		return fmt.Sprintf("r%d", f%6)
 	}
 	var sentLog []sent
 	selfAddr := net.UDPAddr{IP: net.IP(n.Serf.Memberlist().LocalNode().Addr), Port: int(n.Serf.Memberlist().LocalNode().Port)}
+	var injectPanic any
 	inject := func(ri int, r c07Reply, from string, copies int) {
 		tq := r.Target % nq
 		other := (tq + 1) % nq
@@ -258,9 +296,18 @@ func bodyC07(c c07Case, x *vkit.Ctx) {
 		} else {
 			buf = mustEncode(serf.VerifMessageQueryResponseType, m)
 		}
-		sentLog = append(sentLog, sent{lt, id, r.Ack, from, payload})
-		for k := 0; k < copies; k++ {
-			n.Delegate.NotifyMsg(buf)
+		sentLog = append(sentLog, sent{lt, id, r.Ack, from, payload, time.Now()})
+		for k := 0; k < copies && injectPanic == nil; k++ {
+			// the delivery runs in this goroutine: a panic in it (send on a closed
+			// stream, second close) is an observation, not a harness crash
+			func() {
+				defer func() {
+					if p := recover(); p != nil {
+						injectPanic = fmt.Sprintf("%v (reply %d: ack=%v from %q, target query %d, %v after its call)", p, ri, r.Ack, from, tq, time.Since(t0[tq]))
+					}
+				}()
+				n.Delegate.NotifyMsg(buf)
+			}()
 			if r.Phase != 1 {
 				// the streams have room for one item (one known member): let the readers take it
 				runtime.Gosched()
@@ -272,7 +319,7 @@ func bodyC07(c c07Case, x *vkit.Ctx) {
 	// phase 0
 	for ri, r := range c.Replies {
 		if r.Phase == 0 {
-			inject(ri, r, fmt.Sprintf("r%d", r.From%4), max(1, min(r.Copies, 3)))
+			inject(ri, r, fromName(r.From), max(1, min(r.Copies, 3)))
 			if r.Copies > 1 {
 				hasDup = true
 			}
@@ -297,13 +344,23 @@ func bodyC07(c c07Case, x *vkit.Ctx) {
 			runtime.Gosched()
 		}
 		started := time.Now()
+		sinkOff := func() {}
+		if c.SlowSinkUs > 0 {
+			sinkOff = slowMetrics(time.Duration(min(c.SlowSinkUs, 1000))*time.Microsecond, "query_acks", "query_responses")
+			x.Label("slow-metrics-sink-during-burst")
+		}
 		for j := 0; j < 8*max(1, min(r.Copies, 3)) || (time.Now().Before(dl.Add(300*time.Microsecond)) && j < 4000); j++ {
 			inject(ri, r, fmt.Sprintf("b%d-%d", ri, j), 1)
 		}
+		sinkOff()
 		if started.Before(dl) && time.Now().After(dl) {
 			x.Label("burst-straddles-deadline")
 			hasLate = true
 		}
+	}
+	if injectPanic != nil {
+		x.Violationf("reply-delivery-panics", "delivering a reply panicked: %v", injectPanic)
+		return
 	}
 	// wait for every stream to close
 	closed := make(chan struct{})
@@ -325,7 +382,7 @@ func bodyC07(c c07Case, x *vkit.Ctx) {
 	// phase 2: after close
 	for ri, r := range c.Replies {
 		if r.Phase == 2 {
-			inject(ri, r, fmt.Sprintf("r%d", r.From%4), max(1, min(r.Copies, 3)))
+			inject(ri, r, fromName(r.From), max(1, min(r.Copies, 3)))
 			hasLate = true
 			if r.Copies > 1 {
 				hasDup = true
@@ -335,6 +392,10 @@ func bodyC07(c c07Case, x *vkit.Ctx) {
 	time.Sleep(2 * time.Millisecond) // relay-wrapped late replies travel through the transport
 
 	// ---- oracle
+	if injectPanic != nil {
+		x.Violationf("reply-delivery-panics", "delivering a reply panicked: %v", injectPanic)
+		return
+	}
 	for i := 0; i < nq; i++ {
 		o := obs[i]
 		o.mu.Lock()
@@ -350,11 +411,18 @@ func bodyC07(c c07Case, x *vkit.Ctx) {
 			if a == self { // the node acknowledges its own query over loopback
 				continue
 			}
-			ok := false
+			ok, intime := false, false
 			for _, s := range sentLog {
 				if s.ack && s.from == a && s.lt == ids[i].lt && s.id == ids[i].id {
 					ok = true
+					if !s.at.After(deadlines[i]) {
+						intime = true
+					}
 				}
+			}
+			if ok && !intime {
+				x.Violationf("ack-delivered-after-deadline", "query %d (LTime %d id %d, timeout %v): ack from %q delivered, but every such ack was injected after the query's deadline", i, ids[i].lt, ids[i].id, timeouts[i], a)
+				return
 			}
 			if !ok {
 				x.Violationf("foreign-ack-delivered", "query %d (LTime %d id %d): ack from %q delivered, but no ack with this query's time and id was sent by %q", i, ids[i].lt, ids[i].id, a, a)
@@ -368,11 +436,18 @@ func bodyC07(c c07Case, x *vkit.Ctx) {
 				return
 			}
 			seenResp[r.From] = true
-			ok := false
+			ok, intime := false, false
 			for _, s := range sentLog {
 				if !s.ack && s.from == r.From && s.payload == string(r.Payload) && s.lt == ids[i].lt && s.id == ids[i].id {
 					ok = true
+					if !s.at.After(deadlines[i]) {
+						intime = true
+					}
 				}
+			}
+			if ok && !intime {
+				x.Violationf("response-delivered-after-deadline", "query %d (LTime %d id %d, timeout %v): response %q from %q delivered, but every such reply was injected after the query's deadline", i, ids[i].lt, ids[i].id, timeouts[i], r.Payload, r.From)
+				return
 			}
 			if !ok {
 				x.Violationf("foreign-response-delivered", "query %d (LTime %d id %d): response %q from %q delivered, but that reply was not addressed to this query", i, ids[i].lt, ids[i].id, r.Payload, r.From)
@@ -396,6 +471,13 @@ func bodyC07(c c07Case, x *vkit.Ctx) {
 			if !ct.IsZero() && ct.Sub(t0[i]) < timeouts[i] {
 				x.Violationf("closed-early", "query %d: a stream closed %v after the call began, timeout %v", i, ct.Sub(t0[i]), timeouts[i])
 				return
+			}
+			// how much later is not judged: under machine load a single goroutine (the close
+			// timer's, or the reader that notices the close) can be tens of milliseconds late
+			// while the starvation monitor's ticker sees nothing, so a wall-clock bound would
+			// raise false alarms; only the 3 s bound above applies
+			if late := ct.Sub(tEnd[i].Add(timeouts[i])); !ct.IsZero() && late > 40*time.Millisecond {
+				x.Label("close-observed-40ms-late")
 			}
 		}
 	}
